@@ -157,9 +157,14 @@ IsVecCase(c) ==
 
 ----------------------------------------------------------------------------
 \* direct evaluation of the classifier predicates on names derived from the current lists and near misses
-NearNames(nm) == {nm, LowAscii(nm), Alt(nm), nm \o <<88>>, SubSeq(nm, 1, Len(nm) - 1), <<0>> \o nm, nm \o <<0>>,
-                  SubSeq(nm, 1, 1) \o <<0>> \o SubSeq(nm, 2, Len(nm)), <<88>> \o nm, ON \o nm, LowAscii(ON \o nm),
-                  SubSeq(nm, 1, Len(nm) - 1) \o <<196, 177>>, SubSeq(nm, 1, Len(nm) - 1) \o <<197, 191>>}
+NearNames(nm) ==
+  {nm, LowAscii(nm), Alt(nm), nm \o <<88>>, <<0>> \o nm, nm \o <<0>>, <<88>> \o nm, ON \o nm, LowAscii(ON \o nm)}
+  \cup (IF Len(nm) >= 2
+        THEN {SubSeq(nm, 1, Len(nm) - 1), SubSeq(nm, 1, 1) \o <<0>> \o SubSeq(nm, 2, Len(nm)),
+              SubSeq(nm, 1, 1) \o <<0, 0, 0>> \o SubSeq(nm, 2, Len(nm)),
+              SubSeq(nm, 1, Len(nm) - 1) \o <<0, 0, 0, 0, 0, 0>> \o SubSeq(nm, Len(nm), Len(nm)),
+              SubSeq(nm, 1, Len(nm) - 1) \o <<196, 177>>, SubSeq(nm, 1, Len(nm) - 1) \o <<197, 191>>}
+        ELSE {})
 CurNames == RangeOf(BlackTagSeq) \cup {a.name : a \in RangeOf(BlackAttrSeq)} \cup {a.name : a \in RangeOf(BlackEventSeq)}
             \cup {SVG, XSL, XMLNS, XLINK, <<83, 86, 84>>, <<83, 86, 71, 88>>, <<88, 77, 76, 78, 83, 58, 88>>, <<79, 78>>, <<79>>, <<>>}
 IsPredCase(c) ==
